@@ -424,6 +424,8 @@ class Scheduler:
                 return
         nxt = self.strategy.at_point(self, kind, info)
         if nxt is not None and nxt is not cur:
+            if nxt.pred is not None and nxt.deadline is not None and not nxt.pred() and self.now < nxt.deadline:
+                self.now = nxt.deadline  # timers == "any": time passes while `cur` is busy; let the sleeper's timeout fire
             self.preemptions += 1
             self._handoff(cur, nxt)
 
